@@ -10,6 +10,19 @@ import (
 // If the system-specific or Go-specific error cannot be mapped to anything, it
 // will be logged and EIO will be returned.
 func ExtractErrno(err error) Errno {
+	// An exact errno in the chain wins. The sentinel errors below match
+	// several errno values each (syscall.Errno.Is reports EPERM as well as
+	// EACCES for os.ErrPermission, ENOTEMPTY as well as EEXIST for
+	// os.ErrExist), so consulting them first would rewrite the number.
+	var errno Errno
+	if errors.As(err, &errno) {
+		return errno
+	}
+
+	if e := sysErrno(err); e != 0 {
+		return e
+	}
+
 	for _, pair := range []struct {
 		error
 		Errno
@@ -22,15 +35,6 @@ func ExtractErrno(err error) Errno {
 		if errors.Is(err, pair.error) {
 			return pair.Errno
 		}
-	}
-
-	var errno Errno
-	if errors.As(err, &errno) {
-		return errno
-	}
-
-	if e := sysErrno(err); e != 0 {
-		return e
 	}
 
 	// Default case.
